@@ -349,6 +349,16 @@ class Executor2(Executor):
     def raise_classifier(self, fsrc, call):
         return fsrc.split(".")[-1]
 
+    def havoc_loc(self, st, loc, env):
+        if self.lenient:
+            try:
+                return Executor.havoc_loc(self, st, loc, env)
+            except Unsupported as u:
+                if "no schema entry" in str(u):
+                    return  # an attribute outside the model: every read of it is opaque already
+                raise
+        return Executor.havoc_loc(self, st, loc, env)
+
     # ------------------------------------------------------------------ may_raise on contracts
     def apply_contract(self, st, c, selfv, args, kw, ln):
         res = Executor.apply_contract(self, st, c, selfv, args, kw, ln)
@@ -408,6 +418,122 @@ class Executor2(Executor):
 
     # ------------------------------------------------------------------ loops
     def exec_loop(self, s, st):
+        if isinstance(s, ast.For):
+            probe = st.copy()
+            try:
+                itv = self.ev(s.iter, probe)
+            except Unsupported:
+                itv = None
+            if itv is not None and itv.kind.startswith("map:") and isinstance(itv.x, tuple):
+                return self.exec_for_mapkeys(s, st)
+        return self.exec_loop_plain(s, st)
+
+    # ---- for k in <dict>: every key of the map exactly once, in an order the proof may not depend on
+    def sp_seen(self, e, st):
+        """seen(k): key k was visited by an earlier iteration of the enclosing for-loop over a map"""
+        if "$seen" not in st.env:
+            raise Unsupported("seen() outside a for-loop over a map")
+        k = self.ev(e.args[0], st)
+        return SV("bool", z3.Select(st.env["$seen"].t, k.t))
+
+    def exec_for_mapkeys(self, s, st):
+        m_, ci, fn = frontend.resolve(self.cur.target)
+        loops = frontend.loops_in(fn)
+        try:
+            ordinal = loops.index(s)
+        except ValueError:
+            raise Unsupported("loop at line %d inside an inlined function" % s.lineno)
+        L = self.cur.loops.get(ordinal)
+        if L is None:
+            raise Unsupported("loop %d at line %d has no sidecar invariant" % (ordinal, s.lineno))
+        if s.orelse or not isinstance(s.target, ast.Name):
+            raise Unsupported("for-else / tuple target at line %d" % s.lineno)
+        tag = "loop%d@L%d" % (ordinal, s.lineno)
+        itv = self.ev(s.iter, st)
+        ks = itv.kind.split(":")[1]
+        ksort = sort_of(ks, self.bits)
+        dom0 = itv.x[3]
+        entry = st.copy()
+        saved = st.env.get("$seen")
+        st.env["$seen"] = SV("set:" + ks, z3.K(ksort, z3.BoolVal(False)))
+        inv0 = self.inv_eval(L.invariant, st, entry)
+        if not z3.is_true(inv0):
+            self.oblige(st, inv0, "%s.invariant-established" % tag, None, kind="loop")
+        head = st.copy()
+        names, heap_keys = self.assigned_in(s.body, st)
+        names.add(s.target.id)
+        for nm in names:
+            ty = self.cur.locals.get(nm)
+            if ty is not None:
+                f = parse_type(ty)
+                head.env[nm] = self.fresh(f.kind, nm, cls=f.cls, opt=f.opt)
+            elif nm in head.env:
+                v = head.env[nm]
+                if v.kind in ("int", "bool", "real", "bits", "str"):
+                    head.env[nm] = self.fresh(v.kind, nm, opt=v.none is not None)
+                    if v.kind == "bits":
+                        head.assume(self.bits.wf(head.env[nm].t))
+                elif v.kind == "ref":
+                    head.env[nm] = SV("ref", z3.Const("%s!%d" % (nm, self._nf()), Ref), cls=v.cls)
+                elif self.lenient:
+                    head.env[nm] = self.opaque()
+                else:
+                    raise Unsupported("cannot havoc %s of kind %s" % (nm, v.kind))
+        for hk in heap_keys:
+            f = self.schema[hk]
+            arr, na = self.heap_arrays(head, hk, f)
+            k = self._nf()
+            nm = hk.replace(".", "_").replace("*", "any")
+            head.heap[hk] = (z3.Const("lh_%s!%d" % (nm, k), arr.sort()), z3.Const("lhn_%s!%d" % (nm, k), na.sort()) if na is not None else None)
+        for loc in (L.modifies or []):
+            self.havoc_loc(head, loc, head.env)
+        seen = z3.Const("seen!%d" % self._nf(), z3.ArraySort(ksort, B))
+        kq = z3.Const("kq!%d" % self._nf(), ksort)
+        head.assume(z3.ForAll([kq], z3.Implies(z3.Select(seen, kq), z3.Select(dom0, kq))))
+        head.env["$seen"] = SV("set:" + ks, seen)
+        head.assume(self.inv_eval(L.invariant, head, entry))
+        # the iterated dictionary keeps its key set while it is iterated (Python raises RuntimeError otherwise)
+        live = self.ev(s.iter, head.copy())
+        kq2 = z3.Const("kq!%d" % self._nf(), ksort)
+        head.assume(z3.ForAll([kq2], z3.Select(live.x[3], kq2) == z3.Select(dom0, kq2)))
+        after, exits_out = [], []
+        ex_st = head.copy()
+        kq3 = z3.Const("kq!%d" % self._nf(), ksort)
+        ex_st.assume(z3.ForAll([kq3], z3.Implies(z3.Select(dom0, kq3), z3.Select(seen, kq3))))
+        ex_st.env.pop("$seen", None)
+        if saved is not None:
+            ex_st.env["$seen"] = saved
+        after.append(ex_st)
+        body_st = head.copy()
+        kv = z3.Const("%s!%d" % (s.target.id, self._nf()), ksort)
+        body_st.assume(z3.And(z3.Select(dom0, kv), z3.Not(z3.Select(seen, kv))))
+        if ks == "bits":
+            body_st.assume(self.bits.wf(kv))
+        body_st.env[s.target.id] = SV(ks, kv, cls=itv.cls if ks == "ref" else None)
+        self.loop_stack.append(tag)
+        try:
+            normal, exits = self.exec_block(s.body, [body_st])
+        finally:
+            self.loop_stack.pop()
+        back = list(normal)
+        for x in exits:
+            if x.kind == "continue":
+                back.append(x.state)
+            elif x.kind == "break":
+                bs = x.state
+                bs.env.pop("$seen", None)
+                after.append(bs)
+            else:
+                exits_out.append(x)
+        for b in back:
+            b.env["$seen"] = SV("set:" + ks, z3.Store(seen, kv, z3.BoolVal(True)))
+            self._ob(b, self.inv_eval(L.invariant, b, entry), "%s.invariant-preserved" % tag, "loop")
+            lv = self.ev(s.iter, b.copy())
+            kq4 = z3.Const("kq!%d" % self._nf(), ksort)
+            self._ob(b, z3.ForAll([kq4], z3.Select(lv.x[3], kq4) == z3.Select(dom0, kq4)), "%s.iterated-map-keys-not-modified" % tag, "loop")
+        return after, exits_out
+
+    def exec_loop_plain(self, s, st):
         m, ci, fn = frontend.resolve(self.cur.target)
         loops = frontend.loops_in(fn)
         try:
@@ -596,8 +722,23 @@ class Executor2(Executor):
                                 for key in self.schema:
                                     if key.endswith("." + m.attr):
                                         keys.add(key)
+                            elif isinstance(m, ast.Subscript) and isinstance(m.ctx, ast.Store) and isinstance(m.value, ast.Attribute):
+                                # obj.field[k] = v / obj.field[k] += v: the container held in the field changes
+                                for key in self.schema:
+                                    if key.endswith("." + m.value.attr):
+                                        keys.add(key)
+                elif isinstance(n, ast.Subscript) and isinstance(n.value, ast.Attribute):
+                    # reading a defaultdict inserts the missing key
+                    for key in self.schema:
+                        if key.endswith("." + n.value.attr) and getattr(self.schema[key], "default", None) is not None:
+                            keys.add(key)
                 elif isinstance(n, ast.Call):
                     keys |= self.call_modifies(n)
+                    if isinstance(n.func, ast.Attribute) and isinstance(n.func.value, ast.Attribute):
+                        # obj.field.method(...): a mutating method of a modelled container
+                        for key in self.schema:
+                            if key.endswith("." + n.func.value.attr) and self.schema[key].kind.split(":")[0] in ("map", "set", "lenlist", "reflist"):
+                                keys.add(key)
         return names, keys
 
     def call_modifies(self, call):
